@@ -9,6 +9,8 @@ import Mrm.Model.Timing
 import Mrm.Model.Merge
 import Mrm.Spec.Merge
 import Mrm.Spec.Frame
+import Mrm.Model.Collection
+import Mrm.Spec.Collection
 
 open Lean
 
@@ -141,6 +143,22 @@ def handle (j : Json) : Except String Json := do
           ("C07", pj true (holdsC07 i o)),
           ("C12", pj (DomC12 i) (holdsC12 i o))]
         pure (Json.mkObj (base ++ [("props", props)]))
+  | "collection" =>
+    let docsJ ← (j.getObjVal? "docs").bind (·.getArr?)
+    let docs ← docsJ.toList.mapM xmlOfJson
+    let allow ← (j.getObjVal? "allow_incomplete").bind (·.getBool?)
+    let strict ← (j.getObjVal? "strict").bind (·.getBool?)
+    let r := collection docs allow strict
+    let runJ : Json := match r.run with
+      | none => .null
+      | some run => Json.mkObj [("ro", xmlToJson run.ro), ("warns", toJson (run.warns.map Warn.name)), ("err", errJ run.err)]
+    -- the specification of acceptance (C11), decided from the classes / running-order IDs alone
+    let accept : Json := match mapM' mkReader docs with
+      | .error _ => .null
+      | .ok rs => .bool (decide (describesOneB rs allow = true))
+    pure (Json.mkObj [("err", errJ r.err), ("reader_ids", toJson r.readerIds),
+      ("ro_msg_id", match r.roMsgId with | some n => toJson n | none => .null), ("run", runJ),
+      ("spec_accepts", accept)])
   | _ => throw s!"unknown op {op}"
 
 end Mrm
